@@ -96,6 +96,15 @@ func selfTest(propID, repo, verif string) map[string]interface{} {
 	seeds, _ := filepath.Glob(filepath.Join(verif, "seeded", propID+"-*", "patch.diff"))
 	sort.Strings(seeds)
 	for _, s := range seeds {
+		// a seeded change the checks are known not to decide (meta.json known_miss, DESIGN §6.12) is no positive example
+		if mb, err := os.ReadFile(filepath.Join(filepath.Dir(s), "meta.json")); err == nil {
+			var meta struct {
+				KnownMiss bool `json:"known_miss"`
+			}
+			if json.Unmarshal(mb, &meta) == nil && meta.KnownMiss {
+				continue
+			}
+		}
 		vs = append(vs, variant{id: "seed:" + filepath.Base(filepath.Dir(s)), expect: propID + ".", patch: s})
 	}
 	self, err := os.Executable()
